@@ -100,6 +100,12 @@ type Explorer struct {
 	Seed      int
 	QuickMs   int
 	SolverMode string
+	// IsKnown says whether a set of finding classes belongs to a listed known
+	// finding; a harness run stops early once it holds enough counterexamples
+	// outside every known finding (there is nothing more to decide), and at
+	// Deadline (reported as a reduced bound, never as success)
+	IsKnown  func(classes []string) bool
+	Deadline time.Time
 
 	mu        sync.Mutex
 	work      [][]Dec
@@ -109,6 +115,7 @@ type Explorer struct {
 	viol      map[string][]*Violation
 	inconcl   []string
 	nPaths    int
+	newViol   int // counterexamples outside every known finding
 	stop      bool
 	funcSteps map[string]int
 	covers    map[string]int
@@ -566,6 +573,14 @@ func (ex *Exec) recordViolation(id string, m Model, definite bool) {
 	if len(E.viol[key]) < 8 {
 		E.viol[key] = append(E.viol[key], v)
 	}
+	if E.IsKnown != nil && !E.IsKnown(v.Classes) {
+		E.newViol++
+		if E.newViol >= 24 && !E.stop {
+			E.inconcl = append(E.inconcl, "stopped early: 24 counterexamples outside the known findings collected")
+			E.stop = true
+			E.cond.Broadcast()
+		}
+	}
 	E.mu.Unlock()
 }
 
@@ -915,6 +930,11 @@ func (w *Worker) runPath(prefix []Dec) {
 		E.stubs[a] += n
 	}
 	E.paths = append(E.paths, sum)
+	if !E.Deadline.IsZero() && time.Now().After(E.Deadline) && !E.stop && (len(E.work) > 0 || E.active > 1) {
+		E.inconcl = append(E.inconcl, fmt.Sprintf("time budget exceeded after %d paths (reduced bound)", E.nPaths))
+		E.stop = true
+		E.cond.Broadcast()
+	}
 	if E.Run.MaxPaths > 0 && E.nPaths >= E.Run.MaxPaths && (len(E.work) > 0 || E.active > 1) {
 		E.inconcl = append(E.inconcl, fmt.Sprintf("path budget %d exceeded", E.Run.MaxPaths))
 		E.stop = true
